@@ -49,7 +49,7 @@ Record host := mk_host {
 
 (* pwrite(fd, buf, len, off): O_APPEND makes linux ignore [off] and append *)
 Definition host_pwrite (H : host) (size : N) (append : bool) (off len : N) : N * N :=
-  if I64_MAX <? off then (EINVAL, size)
+  if I64_MAX <? off + len then (EINVAL, size)      (* pos < 0, or pos + count overflows loff_t *)
   else if len =? 0 then (0, size)
   else
     let pos := if append then size else off in
